@@ -126,7 +126,9 @@ func main() {
 			for j := range ch {
 				perr, panicked, stack := lib.Try(func() error { j.run(e); return nil })
 				if panicked {
+					// a scenario that did not run to its end proves nothing: never let that pass as green
 					res.Note("harness panic in %s: %v\n%s", j.name, perr, stack)
+					res.Mismatch(lib.Mismatch{Sig: "harness-panic", Input: j.name, Model: "scenario runs to its end", Impl: perr.Error()})
 				}
 			}
 		}()
